@@ -47,8 +47,7 @@ impl LocalServer {
         Ok(LocalServer { con })
     }
 
-    fn get_latest_version_id(&mut self) -> Result<VersionId> {
-        let t = self.txn()?;
+    fn get_latest_version_id(t: &rusqlite::Transaction<'_>) -> Result<VersionId> {
         let result: Option<StoredUuid> = t
             .query_row(
                 "SELECT value FROM data WHERE key = 'latest_version_id' LIMIT 1",
@@ -59,14 +58,12 @@ impl LocalServer {
         Ok(result.map(|x| x.0).unwrap_or(NIL_VERSION_ID))
     }
 
-    fn set_latest_version_id(&mut self, version_id: VersionId) -> Result<()> {
-        let t = self.txn()?;
+    fn set_latest_version_id(t: &rusqlite::Transaction<'_>, version_id: VersionId) -> Result<()> {
         t.execute(
             "INSERT OR REPLACE INTO data (key, value) VALUES ('latest_version_id', ?)",
             params![&StoredUuid(version_id)],
         )
         .context("Update task query")?;
-        t.commit()?;
         Ok(())
     }
 
@@ -94,8 +91,10 @@ impl LocalServer {
         Ok(r)
     }
 
-    fn add_version_by_parent_version_id(&mut self, version: Version) -> Result<()> {
-        let t = self.txn()?;
+    fn add_version_by_parent_version_id(
+        t: &rusqlite::Transaction<'_>,
+        version: Version,
+    ) -> Result<()> {
         t.execute(
             "INSERT INTO versions (version_id, parent_version_id, data) VALUES (?, ?, ?)",
             params![
@@ -104,16 +103,12 @@ impl LocalServer {
                 version.history_segment
             ],
         )?;
-        t.commit()?;
         Ok(())
     }
 }
 
 #[async_trait(?Send)]
 impl Server for LocalServer {
-    // TODO: better transaction isolation for add_version (gets and sets should be in the same
-    // transaction)
-
     async fn add_version(
         &mut self,
         parent_version_id: VersionId,
@@ -122,8 +117,16 @@ impl Server for LocalServer {
         // no client lookup
         // no signature validation
 
+        // The check of the latest version, the new version row and the new latest-version pointer
+        // are one transaction: either the version is added and is the latest, or nothing
+        // changes. The write lock is taken up front so that another connection cannot add a
+        // version between the check and the insert.
+        let t = self
+            .con
+            .transaction_with_behavior(rusqlite::TransactionBehavior::Immediate)?;
+
         // check the parent_version_id for linearity
-        let latest_version_id = self.get_latest_version_id()?;
+        let latest_version_id = Self::get_latest_version_id(&t)?;
         if latest_version_id != NIL_VERSION_ID && parent_version_id != latest_version_id {
             return Ok((
                 AddVersionResult::ExpectedParentVersion(latest_version_id),
@@ -136,16 +139,20 @@ impl Server for LocalServer {
 
         #[cfg(gothenburgbitfactory_taskchampion_verif)]
         crate::server::verif::failpoint("local:add_version:before-insert")?;
-        self.add_version_by_parent_version_id(Version {
-            version_id,
-            parent_version_id,
-            history_segment,
-        })?;
+        Self::add_version_by_parent_version_id(
+            &t,
+            Version {
+                version_id,
+                parent_version_id,
+                history_segment,
+            },
+        )?;
         #[cfg(gothenburgbitfactory_taskchampion_verif)]
         crate::server::verif::failpoint("local:add_version:after-insert")?;
-        self.set_latest_version_id(version_id)?;
+        Self::set_latest_version_id(&t, version_id)?;
         #[cfg(gothenburgbitfactory_taskchampion_verif)]
         crate::server::verif::failpoint("local:add_version:after-latest")?;
+        t.commit()?;
 
         Ok((AddVersionResult::Ok(version_id), SnapshotUrgency::None))
     }
